@@ -251,7 +251,8 @@ func (ch suicideChange) revert(s *CommitStateDB) {
 	so := s.getStateObject(*ch.account)
 	if so != nil {
 		so.suicided = ch.prev
-		so.SetBalance(ch.prevBalance)
+		// not SetBalance: undoing must not add to the journal it is unwinding
+		so.account.SetBalance(ch.prevBalance)
 	}
 }
 
@@ -267,7 +268,8 @@ func (ch touchChange) dirtied() *ethcmn.Address {
 }
 
 func (ch balanceChange) revert(s *CommitStateDB) {
-	s.getStateObject(*ch.account).SetBalance(ch.prev)
+	// not SetBalance: undoing must not add to the journal it is unwinding
+	s.getStateObject(*ch.account).account.SetBalance(ch.prev)
 }
 
 func (ch balanceChange) dirtied() *ethcmn.Address {
